@@ -143,7 +143,15 @@ func (e *Exec) bytesEqual(a, b *SliceV) *Term {
 		if a.blob != nil && b.blob != nil {
 			return e.valEq(a.blob, b.blob)
 		}
-		e.fail("comparing an encoded blob with raw bytes")
+		// an encoding compared with raw bytes: the empty encoding (zero message) equals the empty
+		// string; otherwise they are treated as different (raw bytes in the module store are role
+		// strings, never stored under the key of an encoded entry)
+		blob, raw := a, b
+		if a.blob == nil {
+			blob, raw = b, a
+		}
+		e.events = append(e.events, "note: encoded value compared with raw bytes")
+		return tb.And(tb.Eq(raw.len, tb.BV(0, 64)), e.isZeroVal(blob.blob))
 	}
 	conj := []*Term{tb.Eq(a.len, b.len)}
 	if conj[0].isFalse() {
@@ -560,4 +568,35 @@ func (e *Exec) bytesFromTerm(t *Term, n int, isStr bool) *SliceV {
 	}
 	l := tb.BV(int64(n), 64)
 	return &SliceV{a: a, len: l, gocap: l, isStr: isStr, isNil: tb.ff, minLen: n}
+}
+
+// isZeroVal: the value is the zero value of its shape (its protobuf encoding is empty).
+func (e *Exec) isZeroVal(v Value) *Term {
+	tb := e.tb
+	switch x := v.(type) {
+	case *Term:
+		if x.w == 0 {
+			return tb.Not(x)
+		}
+		return tb.Eq(x, tb.BV(0, x.w))
+	case *SliceV:
+		return tb.Eq(x.len, tb.BV(0, 64))
+	case *GSliceV:
+		return tb.Bool(len(x.e) == 0)
+	case *StructV:
+		var cs []*Term
+		for _, c := range x.f {
+			cs = append(cs, e.isZeroVal(c.v))
+		}
+		return tb.And(cs...)
+	case *PtrV:
+		if x.c == nil {
+			return tb.tt
+		}
+		if b, ok := x.c.v.(*BigV); ok {
+			return tb.Eq(b.v, tb.BV(0, bigW))
+		}
+		return tb.ff
+	}
+	return tb.ff
 }
